@@ -145,6 +145,7 @@ class World:
         self.definitional = set()   # macro names that are defining equations of ufuncs (may be instantiated as lemmas)
         self.coroutine_objects = False   # True: a call of an `async def` that is not directly awaited only creates a coroutine object
         self.opaque = {}       # dotted callee name -> ret type string (uninterpreted pure function of its args; assumption)
+        self.dict_classes = {}      # ref class name -> map type string: a python dict held BY REFERENCE (aliases see each other's updates; .copy() allocates)
 
     # --- declarations
     def enum(self, name, rel, cls, ordered=False):
@@ -189,6 +190,18 @@ class World:
     def refclass(self, name, fields, rel=None, cls=None, truthy=None, universal=False):
         self.types[name] = TRef(name, truthy, universal); self.classes[name] = dict(fields)
         if rel: self.class_src[name] = (rel, cls or name)
+        return self.types[name]
+    def refdict(self, name, mapty):
+        """a mutable dict modelled as a heap object with identity (field `m` holds the finite map): needed where the code keeps an alias of a
+        dict while somebody else may rebind the attribute it came from"""
+        self.refclass(name, {'m': mapty}); self.dict_classes[name] = mapty
+        def _copy(ex, recv, args, kwargs, node):
+            r = ex.alloc(recv.ty); ex.heap_write(r, 'm', ex.heap_read(recv, 'm', ex.w.ty(mapty))); return r
+        self.py_methods[(name, 'copy')] = _copy
+        for attr in ('get', 'items', 'values', 'keys'):
+            def _deleg(ex, recv, args, kwargs, node, attr=attr):
+                return ex.call(BoundBuiltin(ex.heap_read(recv, 'm', ex.w.ty(mapty)), attr, None), args, kwargs, node)
+            self.py_methods[(name, attr)] = _deleg
         return self.types[name]
     def alias(self, name, tystr): self.types[name] = self.ty(tystr)
     def define(self, sig, expr):
@@ -848,6 +861,8 @@ class Exec:
     def contains(self, c, x):
         if isinstance(c, IterV): c = self.materialize(c)
         ty = c.ty
+        if isinstance(ty, TRef) and ty.cls in self.w.dict_classes:
+            return self.contains(self.heap_read(c, 'm', self.w.ty(self.w.dict_classes[ty.cls])), x)
         if isinstance(ty, TSet): return z3.Select(c.t[0], pack(coerce(x, ty.elem))) if self._coercible(x, ty.elem) else z3.BoolVal(False)
         if isinstance(ty, TMap): return z3.Select(c.t[0], pack(coerce(x, ty.k))) if self._coercible(x, ty.k) else z3.BoolVal(False)
         if isinstance(ty, TOMap): return T.omap_member(c, pack(coerce(x, ty.k))) if self._coercible(x, ty.k) else z3.BoolVal(False)
@@ -1152,6 +1167,8 @@ class Exec:
 
     def getitem(self, obj, idx):
         ty = obj.ty
+        if isinstance(ty, TRef) and ty.cls in self.w.dict_classes:
+            return self.getitem(self.heap_read(obj, 'm', self.w.ty(self.w.dict_classes[ty.cls])), idx)
         if isinstance(ty, TOpt):
             if not self.spec and self.branch(obj.t[0], exceptional=True): self.raise_exc('TypeError')
             return self.getitem(obj.t[1], idx)
@@ -1866,13 +1883,29 @@ class Exec:
         if c is not None and c.abstract:
             head = ast.unparse(st).split('\n')[0].strip()
             ab = c.abstract.get(head)
+            if ab is None and any(k.startswith(head + '#') for k in c.abstract):
+                # several statements with the same first line: `head#k` names the k-th one in source order within the function
+                same = [n_ for n_ in ast.walk(self.frame['func']) if isinstance(n_, ast.stmt) and ast.unparse(n_).split('\n')[0].strip() == head]
+                same.sort(key=lambda n_: (n_.lineno, n_.col_offset))
+                k_ = [i_ for i_, n_ in enumerate(same) if n_ is st]
+                if k_:
+                    ab = c.abstract.get('%s#%d' % (head, k_[0]))
+                    if ab is not None: head = '%s#%d' % (head, k_[0])
             if ab is not None:
+                pre_ = self.st.copy(); pre_.env = dict(self.st.env)      # `old(e)` in the block contract = value of e when the block is entered
+                for hf in ab.get('modifies', []):       # heap fields the abstracted block may write
+                    if hf == '$alloc': self.havoc_alloc([]); continue
+                    cls_, fld_ = hf.split('.'); fty_ = self.w.ty(self.w.classes[cls_][fld_]); self.heap_field(cls_, fld_, fty_)
+                    self.st.heap[hf] = fresh('heap_' + cls_ + '_' + fld_, z3.ArraySort(sort_of(TRef(cls_)), sort_of(fty_)))
                 self.vf.note_ghost(c, 'abstract:' + head)
                 self.vf.note_assumption('assumed block contract in %s: `%s ...` assigns %s ensures %s' % (c.oname, head, sorted(ab.get('assigns', {})), ab.get('ensures', [])))
                 facts = []
                 for nme, tystr in ab.get('assigns', {}).items(): self.st.env[nme] = havoc(self.w.ty(tystr), nme, facts)
                 for f_ in facts: self.assume(f_)
-                for e_ in ab.get('ensures', []): self.assume(self.eval_spec(e_))
+                saved_old_ = self.old; self.old = pre_
+                try:
+                    for e_ in ab.get('ensures', []): self.assume(self.eval_spec(e_))
+                finally: self.old = saved_old_
                 return
         meth(st)
         if c is not None and c.ghost_after and isinstance(st, (ast.Expr, ast.Assign, ast.AugAssign, ast.Pass)):
@@ -1954,6 +1987,10 @@ class Exec:
             self.heap_write(obj, target.attr, self.val(v))
         elif isinstance(target, ast.Subscript):
             recv = self.val(self.eval(target.value)); k = self.val(self.eval(target.slice))
+            if isinstance(recv.ty, TRef) and recv.ty.cls in self.w.dict_classes:
+                # a dict held by reference: the update goes to the object, every alias sees it
+                m_ = self.heap_read(recv, 'm', self.w.ty(self.w.dict_classes[recv.ty.cls]))
+                self.heap_write(recv, 'm', setitem(self, m_, k, self.val(v))); return
             self.assign(target.value, setitem(self, recv, k, self.val(v)))
         else: raise Unsupported('assignment target %s' % type(target).__name__)
 
@@ -2037,6 +2074,19 @@ class Exec:
             m = self.val(self.eval(st.items[0].context_expr.func.value))
             if isinstance(m.ty, (TMap, TOMap)) or (isinstance(m.ty, TTuple) and not m.t):
                 self.assign(st.items[0].optional_vars, m)
+                self.exec_block(st.body); return
+        # `with <call> [as v]:` where the call is to code outside reach whose assumed contract says context_manager=True:
+        # v is bound to the call's result (what __enter__ returns), the body runs, __exit__ is assumed to restore nothing the contracts
+        # mention and not to swallow exceptions (listed as an assumption)
+        if len(st.items) == 1 and isinstance(st.items[0].context_expr, ast.Call):
+            ce = st.items[0].context_expr
+            f_ = self.eval(ce.func) if not (ast.unparse(ce.func) in self.w.ext_funcs) else ExtMethod(None, ast.unparse(ce.func))
+            spec_ = None
+            if isinstance(f_, ExtMethod): spec_ = (self.frame.get('ext_funcs') or {}).get(f_.key) or self.w.ext_funcs.get(f_.key) or self.w.ext_methods.get(f_.key)
+            if spec_ is not None and spec_.get('context_manager'):
+                self.vf.note_assumption('context manager %s: the `as` variable is the call result; __exit__ restores nothing the contracts mention and lets exceptions through' % f_.key)
+                r_ = self.eval(ce)
+                if st.items[0].optional_vars is not None: self.assign(st.items[0].optional_vars, r_)
                 self.exec_block(st.body); return
         raise Unsupported('with statement')
 
